@@ -17,7 +17,8 @@ from ..runner import jhash
 
 LEVEL = "exploration"
 RULE = ("histories = sequences of (op, name, kind) with op in {setattr, add}, name in {x, y, z}, kind in {Signal, Port, "
-        "Instance, InstanceArray, InstanceBundle, BundleInstance} (Modules) / {Signal, Port-Signal, BundleInstance} (Bundles), "
+        "directed internal Signal, Instance, InstanceArray, InstanceBundle, BundleInstance} (Modules) / {Signal, Port-Signal, "
+        "directed internal Signal, BundleInstance} (Bundles), "
         "every value a fresh object; exhaustive to length 3 (quick) / 4 (thorough, Modules on a reduced alphabet) plus seeded "
         "histories of length <= 8; the invariant is evaluated after EVERY operation. distinct = the history; non-trivial = "
         "some name is used at least twice")
@@ -158,8 +159,8 @@ def attach(rec):
 
 # ------------------------------------------------------------------------------------------------
 
-MKINDS = ["Signal", "Port", "Instance", "InstanceArray", "InstanceBundle", "BundleInstance"]
-BKINDS = ["Signal", "PortSignal", "BundleInstance"]
+MKINDS = ["Signal", "Port", "DirectedSignal", "Instance", "InstanceArray", "InstanceBundle", "BundleInstance"]
+BKINDS = ["Signal", "PortSignal", "DirectedSignal", "BundleInstance"]
 _lib = {}
 
 
@@ -183,6 +184,8 @@ def fresh(kind, g=None):
         return h.Signal()
     if kind in ("Port", "PortSignal"):
         return h.Port(width=2)
+    if kind == "DirectedSignal":  # internal visibility, yet a direction: must NOT be listed as a port
+        return h.Signal(direction=h.PortDir.OUTPUT)
     if kind == "Instance":
         i = h.Instance(of=L["E"]())
         if g is not None:
